@@ -4,13 +4,13 @@
 # harness and runs the quick checks against it. Evidence and replays of these runs go to /var/tmp/seed/out.
 set -e
 patch=$(readlink -f "$1"); shift
-S=/var/tmp/seed
+S=${SEEDENV:-/var/tmp/seed}
 head=$(git -C /repo rev-parse HEAD)
 git -C $S/repo checkout -q --detach $head 2>/dev/null || { git -C $S/repo checkout -q -- . ; git -C $S/repo checkout -q --detach $head; }
 git -C $S/repo checkout -q -- .
 [ -s "$patch" ] && git -C $S/repo apply "$patch"; true
 rsync -a --delete --exclude Cargo.toml /verif/harness/ $S/harness/
-sed 's#path = "/repo"#path = "/var/tmp/seed/repo"#' /verif/harness/Cargo.toml > $S/harness/Cargo.toml
+sed "s#path = \"/repo\"#path = \"$S/repo\"#" /verif/harness/Cargo.toml > $S/harness/Cargo.toml
 mkdir -p $S/out/evidence $S/out/replays
 cd /verif
 for id in "$@"; do
